@@ -62,6 +62,87 @@ Proof.
   destruct H as [H|H]; [congruence|]. destruct (IH H) as (m & A & B & C). exists m. auto.
 Qed.
 
+Lemma number_from_surj : forall l i x, In x l -> exists d, In d (number_from i l) /\ s_nodes d = x.
+Proof.
+  induction l as [|y l IH]; intros i x H; simpl in *; [contradiction|].
+  destruct H as [<-|H]; [eexists; split; [left; reflexivity|reflexivity]|].
+  destruct (IH (i + 1) x H) as (d & Hd & E). exists d. auto.
+Qed.
+
+Lemma NoDup_app_parts {A} (a b : list A) : NoDup (a ++ b) -> NoDup a /\ NoDup b /\ (forall x, In x a -> In x b -> False).
+Proof.
+  induction a as [|x a IH]; simpl; intro H; [split; [constructor|split; [exact H|intros ? []]]|].
+  inversion H as [|? ? Hn Hnd]; subst. destruct (IH Hnd) as (Ha & Hb & Hd).
+  split; [constructor; [intro Hi; apply Hn; apply in_or_app; left; exact Hi|exact Ha]|].
+  split; [exact Hb|]. intros y [->|Hy] Hyb; [apply Hn; apply in_or_app; right; exact Hyb|eapply Hd; eauto].
+Qed.
+
+Lemma NoDup_app_intro {A} (a b : list A) :
+  NoDup a -> NoDup b -> (forall x, In x a -> In x b -> False) -> NoDup (a ++ b).
+Proof.
+  induction a as [|x a IH]; simpl; intros Ha Hb Hd; [exact Hb|].
+  inversion Ha as [|? ? Hn Ha']; subst. constructor.
+  - intro Hi. apply in_app_or in Hi. destruct Hi as [Hi|Hi]; [exact (Hn Hi)|exact (Hd x (or_introl eq_refl) Hi)].
+  - apply IH; auto. intros y Hy. apply Hd. right. exact Hy.
+Qed.
+
+Lemma concat_filter_sub {A} (P : list A -> bool) l y : In y (concat (filter P l)) -> In y (concat l).
+Proof.
+  intro Hy. apply in_concat in Hy. destruct Hy as (z & Hz & Hyz). apply filter_In in Hz.
+  apply in_concat. exists z. tauto.
+Qed.
+
+Lemma NoDup_concat_filter {A} (P : list A -> bool) : forall l, NoDup (concat l) -> NoDup (concat (filter P l)).
+Proof.
+  induction l as [|x l IH]; simpl; intro H; [constructor|].
+  destruct (NoDup_app_parts _ _ H) as (Hx & Hl & Hd). destruct (P x); [|apply IH; exact Hl].
+  simpl. apply NoDup_app_intro; [exact Hx|apply IH; exact Hl|].
+  intros y Hy Hc. apply (Hd y Hy). eapply concat_filter_sub. exact Hc.
+Qed.
+
+Lemma NoDup_concat_elem {A} : forall (l : list (list A)) x, NoDup (concat l) -> In x l -> NoDup x.
+Proof.
+  induction l as [|y l IH]; simpl; intros x H Hx; [contradiction|].
+  destruct (NoDup_app_parts _ _ H) as (Hy & Hl & _). destruct Hx as [<-|Hx]; [exact Hy|eapply IH; eauto].
+Qed.
+
+(* subgraphs numbered from a duplicate-free tiling are pairwise disjoint *)
+Lemma number_from_disjoint : forall l i d d' m, NoDup (concat l) ->
+  In d (number_from i l) -> In d' (number_from i l) -> In m (s_nodes d) -> In m (s_nodes d') -> d = d'.
+Proof.
+  induction l as [|x l IH]; intros i d d' m H Hd Hd' Hm Hm'; simpl in *; [contradiction|].
+  destruct (NoDup_app_parts _ _ H) as (Hx & Hl & Hdis).
+  destruct Hd as [<-|Hd]; destruct Hd' as [<-|Hd'].
+  - reflexivity.
+  - exfalso. simpl in Hm. apply (Hdis m Hm). apply in_concat. exists (s_nodes d'). split; [eapply number_from_In; exact Hd'|exact Hm'].
+  - exfalso. simpl in Hm'. apply (Hdis m Hm'). apply in_concat. exists (s_nodes d). split; [eapply number_from_In; exact Hd|exact Hm].
+  - eapply IH; eauto.
+Qed.
+
+Lemma max_list_ge : forall l x, In x l -> x <= max_list l.
+Proof.
+  unfold max_list. intros l x. assert (G : forall l a, (a <= fold_left N.max l a) /\ (In x l -> x <= fold_left N.max l a)).
+  { induction l0 as [|y l0 IH]; intro a; simpl; [split; [lia|intros []]|].
+    destruct (IH (N.max a y)) as [H1 H2]. split; [lia|]. intros [->|H]; [lia|auto]. }
+  apply (G l 0).
+Qed.
+
+Lemma find_some_first {A} (P : A -> bool) l x : In x l -> P x = true -> exists y, find P l = Some y.
+Proof.
+  induction l as [|a l IH]; simpl; intros H Hp; [contradiction|].
+  destruct (P a) eqn:E; [eexists; reflexivity|]. destruct H as [->|H]; [congruence|auto].
+Qed.
+
+Lemma find_by_id_unique sgs d : NoDup (map s_id sgs) -> In d sgs ->
+  find (fun d' => N.eqb (s_id d') (s_id d)) sgs = Some d.
+Proof.
+  induction sgs as [|a l IH]; simpl; intros ND H; [contradiction|].
+  inversion ND as [|? ? Hn ND']; subst.
+  destruct H as [->|H]; [rewrite N.eqb_refl; reflexivity|].
+  destruct (N.eqb_spec (s_id a) (s_id d)) as [E|E]; [|auto].
+  exfalso. apply Hn. rewrite E. apply in_map. exact H.
+Qed.
+
 (* ---------------------------------------------------------------- the clauses *)
 Section Clauses.
   Variables (T : optable) (g p : graph).
@@ -114,5 +195,121 @@ Section Clauses.
     unfold node_loop. rewrite Pa, Pb. simpl.
     pose proof (pi_loop _ _ _ _ P a b Ka Kb ltac:(congruence)) as HL.
     unfold node_loop in HL. rewrite Ga, Gb in HL. exact HL.
+  Qed.
+
+  (* W1: every operator in exactly one subgraph, handoffs in none; subgraphs are non-empty
+     duplicate-free lists of operators that point back to them *)
+  Theorem W1_all : W1 p.
+  Proof.
+    destruct (model_core T g p Hok Hp) as (st & f & ist & groups & topo & P & Ei & Es & Cg & Fg & Em & Ep).
+    destruct (ok_parts T g Hok) as (ND & _ & _ & _ & NoMod).
+    destruct (insert_all_nodes _ _ _ Ei) as (extra & En & _ & Fex & _ & NDex). simpl in En, Fex.
+    set (sgs := register_sgs (is_g ist) groups) in *.
+    assert (I := pi_sm _ _ _ _ P).
+    assert (NDo : NoDup (concat groups)) by (rewrite Cg; exact (inv_nodup _ _ _ _ _ I)).
+    assert (NDs : NoDup (map s_id sgs)) by (unfold sgs, register_sgs; apply number_from_nodup).
+    assert (Pn : g_nodes p = map (fun n => mkNode (n_id n) (n_kind n) (n_loop n) (n_refs n)
+                                      (node_sg sgs (n_id n)) (mark_node (is_g ist) (Full.is_tick ist) n))
+                                 (g_nodes g ++ extra)) by (subst p; simpl; rewrite En; reflexivity).
+    assert (Ps : g_sgs p = sgs) by (subst p; reflexivity).
+    assert (Pids : node_ids p = node_ids g ++ map n_id extra).
+    { unfold node_ids. rewrite Pn, map_map, map_app. reflexivity. }
+    (* members of registered subgraphs are old nodes of one class and are not handoffs *)
+    assert (Hsg : forall d, In d sgs -> exists r, In r ks /\ f r = r /\
+                    (forall x, In x (s_nodes d) <-> (In x ks /\ f x = r)) /\
+                    existsb (is_hoff (is_g ist)) (s_nodes d) = false /\ s_nodes d <> []).
+    { intros d Hd. destruct (register_In _ _ _ Hd) as (Hg & Hne & Hh).
+      rewrite Forall_forall in Fg. destruct (Fg _ Hg) as (_ & r & Kr & Fr & Hm). exists r. auto. }
+    assert (Hold : forall a, In a (node_ids g) -> is_hoff (is_g ist) a = is_hoff g a).
+    { intros a Ha. destruct (old_node_of st ist groups topo Ei Ep a Ha) as (n & Ga & _ & G1).
+      unfold is_hoff. rewrite Ga, G1. reflexivity. }
+    assert (Fresh : forall n, In n extra -> ~ In (n_id n) (node_ids g)).
+    { intros n Hn Hin. rewrite Forall_forall in Fex. destruct (Fex n Hn) as [_ [Hlo _]].
+      pose proof (max_list_ge _ _ Hin). lia. }
+    split; [|split; [|split]].
+    - rewrite Pids. apply NoDup_app_intro; [exact ND|exact NDex|].
+      intros x Hx Hx'. apply in_map_iff in Hx'. destruct Hx' as (n & <- & Hn). exact (Fresh n Hn Hx).
+    - rewrite Ps. exact NDs.
+    - intros n' Hn'. rewrite Pn in Hn'. apply in_map_iff in Hn'. destruct Hn' as (n & <- & Hn).
+      unfold member_node. cbn [n_kind n_sg n_id]. apply in_app_or in Hn. destruct Hn as [Hn|Hn].
+      + assert (Hid : In (n_id n) (node_ids g)) by (apply in_map; exact Hn).
+        assert (Kn : In (n_id n) ks) by (apply In_sort_dedup'; exact Hid).
+        assert (Gn : node_of g (n_id n) = Some n).
+        { destruct (find_node_In (g_nodes g) (n_id n) Hid) as (m & Fm & Hm & Em').
+          unfold node_of. rewrite Fm. f_equal.
+          (* ids are unique *)
+          clear - ND Hn Hm Em'. unfold node_ids in ND. induction (g_nodes g) as [|a l IH]; [contradiction|].
+          simpl in ND. inversion ND as [|? ? Hni ND']; subst.
+          destruct Hn as [->|Hn]; destruct Hm as [->|Hm]; auto.
+          - exfalso. apply Hni. rewrite <- Em'. apply in_map. exact Hm.
+          - exfalso. apply Hni. rewrite Em'. apply in_map. exact Hn. }
+        destruct (n_kind n) eqn:Kd.
+        * (* operator: its class is registered *)
+          assert (Ho : In (n_id n) (concat groups)).
+          { rewrite Cg. eapply Permutation_in; [apply Permutation_sym; exact (inv_perm _ _ _ _ _ I)|exact Kn]. }
+          apply in_concat in Ho. destruct Ho as (grp & Hg & Hin).
+          rewrite Forall_forall in Fg. destruct (Fg _ Hg) as (Hne & r & Kr & Fr & Hm).
+          assert (Hnh : existsb (is_hoff (is_g ist)) grp = false).
+          { destruct (existsb (is_hoff (is_g ist)) grp) eqn:Ex; [|reflexivity]. exfalso.
+            apply existsb_exists in Ex. destruct Ex as (y & Hy & Hyh).
+            destruct (proj1 (Hm y) Hy) as [Ky Fy]. destruct (proj1 (Hm _) Hin) as [_ Fn'].
+            rewrite (Hold y) in Hyh by (apply In_sort_dedup'; exact Ky).
+            assert (n_id n = y) by (apply (pi_hoff _ _ _ _ P y (n_id n) Ky Kn Hyh); congruence).
+            subst y. unfold is_hoff in Hyh. rewrite Gn, Kd in Hyh. discriminate. }
+          assert (Hf : In grp (filter (fun ns => negb (Nat.eqb (length ns) 0) && negb (existsb (is_hoff (is_g ist)) ns)) groups)).
+          { apply filter_In. split; [exact Hg|]. rewrite Hnh. destruct grp; [congruence|reflexivity]. }
+          destruct (number_from_surj _ 1 grp Hf) as (d & Hd & Ed).
+          assert (Hd' : In d sgs) by exact Hd.
+          destruct (find_some_first (fun d' => memN (n_id n) (s_nodes d')) sgs d Hd'
+                      ltac:(apply memN_In'; rewrite Ed; exact Hin)) as (d1 & F1).
+          pose proof (find_some _ _ F1) as [Hd1 Hm1]. apply memN_In' in Hm1.
+          exists (s_id d1). unfold node_sg. rewrite F1. split; [reflexivity|]. split.
+          -- unfold sg_nodes. rewrite Ps. rewrite (find_by_id_unique sgs d1 NDs Hd1). exact Hm1.
+          -- rewrite Ps. apply in_map. exact Hd1.
+        * (* user handoff: in no subgraph *)
+          unfold node_sg. destruct (find (fun d => memN (n_id n) (s_nodes d)) sgs) as [d|] eqn:Fd; [|reflexivity].
+          exfalso. pose proof (find_some _ _ Fd) as [Hd Hm]. apply memN_In' in Hm.
+          destruct (Hsg d Hd) as (r & _ & _ & _ & Hh & _).
+          assert (existsb (is_hoff (is_g ist)) (s_nodes d) = true).
+          { apply existsb_exists. exists (n_id n). split; [exact Hm|]. rewrite (Hold _ Hid).
+            unfold is_hoff. rewrite Gn, Kd. reflexivity. }
+          congruence.
+        * exfalso. exact (NoMod n Hn Kd).
+      + (* inserted handoff *)
+        rewrite Forall_forall in Fex. destruct (Fex n Hn) as [(Kh & _) _]. rewrite Kh.
+        unfold node_sg. destruct (find (fun d => memN (n_id n) (s_nodes d)) sgs) as [d|] eqn:Fd; [|reflexivity].
+        exfalso. pose proof (find_some _ _ Fd) as [Hd Hm]. apply memN_In' in Hm.
+        destruct (Hsg d Hd) as (r & _ & _ & Hmem & _ & _).
+        destruct (proj1 (Hmem _) Hm) as [Kx _]. apply (Fresh n Hn). apply In_sort_dedup'. exact Kx.
+    - intros d Hd. rewrite Ps in Hd. destruct (Hsg d Hd) as (r & Kr & Fr & Hmem & Hh & Hne).
+      destruct (register_In _ _ _ Hd) as (Hg & _ & _).
+      unfold member_sg. split; [eapply NoDup_concat_elem; eauto|]. split; [exact Hne|].
+      intros m Hm. destruct (proj1 (Hmem m) Hm) as [Km Fm].
+      assert (Hid : In m (node_ids g)) by (apply In_sort_dedup'; exact Km).
+      destruct (old_node_of st ist groups topo Ei Ep m Hid) as (n & Gm & Pm & G1).
+      assert (Kop : exists nm, n_kind n = KOp nm).
+      { destruct (n_kind n) eqn:Kd; [eexists; reflexivity| |].
+        - exfalso. assert (existsb (is_hoff (is_g ist)) (s_nodes d) = true).
+          { apply existsb_exists. exists m. split; [exact Hm|]. unfold is_hoff. rewrite G1, Kd. reflexivity. }
+          congruence.
+        - exfalso. unfold node_of in Gm.
+          assert (In n (g_nodes g)).
+          { clear - Gm. induction (g_nodes g) as [|a l IH]; simpl in Gm; [discriminate|].
+            destruct (N.eqb (n_id a) m); [injection Gm as <-; left; reflexivity|right; auto]. }
+          exact (NoMod n H Kd). }
+      destruct Kop as [nm Kd]. split.
+      + unfold is_op. rewrite Pm. cbn [n_kind]. rewrite Kd. reflexivity.
+      + assert (Nid : n_id n = m).
+        { unfold node_of in Gm. clear - Gm. induction (g_nodes g) as [|a l IH]; simpl in Gm; [discriminate|].
+          destruct (N.eqb_spec (n_id a) m); [injection Gm as <-; assumption|auto]. }
+        assert (Hns : node_sg sgs m = Some (s_id d)).
+        { unfold node_sg.
+          destruct (find_some_first (fun d' => memN m (s_nodes d')) sgs d Hd ltac:(apply memN_In'; exact Hm)) as (d1 & F1).
+          rewrite F1. f_equal. pose proof (find_some _ _ F1) as [Hd1 Hm1]. apply memN_In' in Hm1.
+          assert (d1 = d).
+          { unfold sgs, register_sgs in Hd, Hd1. eapply number_from_disjoint; [|exact Hd1|exact Hd|exact Hm1|exact Hm].
+            apply NoDup_concat_filter. exact NDo. }
+          congruence. }
+        unfold sg_of. rewrite Pm. cbn [n_sg n_id]. rewrite Nid. exact Hns.
   Qed.
 End Clauses.
